@@ -50,6 +50,10 @@ package vm
 //@ spec fun lastBody(e error) bool = ncalls() >= 1 && calleeIs(ncalls()-1, "runSingleStmt") && res(ncalls()-1) == e
 // ASSUMPTION (parser): the init clause of a C-style for is a var or assignment statement
 //@ axiom auto_wfCFor: forall c *ast.CForStmt :: c != nil ==> c.Stmt1 == nil || typeis(c.Stmt1, "*ast.VarStmt") || typeis(c.Stmt1, "*ast.LetsStmt") || typeis(c.Stmt1, "*ast.ExprStmt")
+// ASSUMPTION (parser): a for-in statement has one or two loop variables (the action of `FOR expr_idents IN expr` rejects anything else)
+//@ axiom auto_wfForVars: forall f *ast.ForStmt :: f != nil ==> len(f.Vars) >= 1 && len(f.Vars) <= 2
+// ASSUMPTION (parser): `a, b = m[k]` has exactly two targets (the action builds a LetMapItemStmt only when len(LHSS) == 2)
+//@ axiom auto_wfLetMapItem: forall m *ast.LetMapItemStmt :: m != nil ==> len(m.LHSS) == 2
 // ASSUMPTION (parser): module names are identifiers, they never contain a '.'
 //@ axiom auto_wfModuleName: forall m *ast.ModuleStmt :: m != nil ==> !strContains(m.Name, ".")
 
@@ -91,6 +95,7 @@ package vm
 //@ ensures [C04 C02 C14] keep: runInfo.ctx == old(runInfo.ctx) && runInfo.options == old(runInfo.options)
 //@ ensures [C02] firederr: fired ==> realErr(runInfo.err)
 //@ ensures [C02] pollsmono: polls >= old(polls)
+//@ loops invariant [C01] rvok: rvValid(runInfo.rv)
 
 // loopStmt: loops consume break/continue
 //@ func template.loopStmt
@@ -234,6 +239,7 @@ package vm
 //@ func (*runInfoStruct).runForSliceStmt
 //@ props C04 C08 C02
 //@ traced_optin value -> runInfo.err; runInfo.rv
+//@ requires [C01 C20] kind: rvValid(value) && (rvKind(value) == reflect.Slice || rvKind(value) == reflect.Array)
 //@ like template.loopStmt
 //@ requires stmt != nil
 //@ loop 0 invariant actInv(runInfo) && runInfo.err == nil
@@ -255,6 +261,7 @@ package vm
 //@ func (*runInfoStruct).runForMapStmt
 //@ props C04 C08 C02
 //@ traced_optin value -> runInfo.err; runInfo.rv
+//@ requires [C01 C20] kind: rvValid(value) && rvKind(value) == reflect.Map
 //@ like template.loopStmt
 //@ requires stmt != nil
 //@ loop 0 invariant actInv(runInfo) && runInfo.err == nil
@@ -275,6 +282,7 @@ package vm
 //@ func (*runInfoStruct).runForChanStmt
 //@ props C04 C08 C02
 //@ traced_optin value -> runInfo.err; runInfo.rv
+//@ requires [C01 C20] kind: rvValid(value) && rvKind(value) == reflect.Chan
 //@ like template.loopStmt
 //@ requires stmt != nil
 //@ loop 0 invariant actInv(runInfo) && runInfo.err == nil
@@ -316,6 +324,9 @@ package vm
 //@ props C04 C08 C02
 //@ like template.evalStmt
 //@ requires stmt != nil
+//@ loop 0 invariant [C01] vals: forall k int :: 0 <= k && k <= rangeindex ==> rvValid(rvs[k])
+//@ loop 1 invariant [C01] idx: 0 <= i#1
+//@ loop 2 invariant [C01] idx: 0 <= i && len(rvs) == len(stmt.Exprs) && len(rvs) >= 1 && (forall k int :: 0 <= k && k < len(rvs) ==> rvValid(rvs[k]))
 //@ ensures [C08] nosentinel: runInfo.err != ErrBreak && runInfo.err != ErrContinue && runInfo.err != ErrReturn
 //@ loop 0 invariant actInv(runInfo) && len(rvs) == len(stmt.Exprs) && runInfo.err == nil && ncalls() == rangeindex + 1 && rangeindex < len(stmt.Exprs) && evalsPrefix(stmt.Exprs) && (forall k int :: 0 <= k && k < ncalls() ==> res(k) == nil)
 //@ ensures [C07] order: evalsPrefix(stmt.Exprs) && okButLast()
@@ -328,6 +339,9 @@ package vm
 //@ props C04 C08 C02
 //@ like template.evalStmt
 //@ requires stmt != nil
+//@ loop 0 invariant [C01] vals: forall k int :: 0 <= k && k <= rangeindex ==> rvValid(rvs[k])
+//@ loop 1 invariant [C01] idx: 0 <= i#1
+//@ loop 2 invariant [C01] idx: 0 <= i && len(rvs) == len(stmt.RHSS) && len(rvs) >= 1 && (forall k int :: 0 <= k && k < len(rvs) ==> rvValid(rvs[k]))
 //@ ensures [C08] nosentinel: runInfo.err != ErrBreak && runInfo.err != ErrContinue && runInfo.err != ErrReturn
 //@ loop 0 invariant actInv(runInfo) && len(rvs) == len(stmt.RHSS) && runInfo.err == nil
 //@ loop 1 invariant actInv(runInfo) && runInfo.err == nil
@@ -345,6 +359,7 @@ package vm
 //@ props C04 C08 C02
 //@ like template.evalStmt
 //@ requires stmt != nil
+//@ loop 0 invariant [C01] vals: len(rvs) == 2 && rvValid(rvs[0]) && rvValid(rvs[1])
 //@ ensures [C08] nosentinel: runInfo.err != ErrBreak && runInfo.err != ErrContinue && runInfo.err != ErrReturn
 //@ loop 0 invariant actInv(runInfo) && runInfo.err == nil
 
